@@ -12,6 +12,156 @@ pub struct FileSpec {
     pub kind: String,
     /// template parameter (names are derived from it so that groups of files interact)
     pub n: u32,
+    /// text mutations applied to every variant of the file, in order: they take the workspace off
+    /// the beaten track of the templates (declarations grafted from other files, shifted
+    /// positions, deleted lines, identifiers renamed onto names of other groups)
+    #[serde(default, skip_serializing_if = "Vec::is_empty")]
+    pub muts: Vec<Mut>,
+}
+
+#[derive(Serialize, Deserialize, Clone, Debug, PartialEq)]
+pub enum Mut {
+    /// prepend `k` comment lines: every position in the file shifts
+    Shift(u32),
+    /// append a line (taken from another file of the workspace when the spec was generated)
+    Append(String),
+    /// insert a line before line `at % (lines + 1)`
+    Insert(usize, String),
+    /// delete line `i % lines`
+    Delete(usize),
+    /// replace every whole-word occurrence of identifier `.0` by `.1`
+    Rename(String, String),
+}
+
+fn is_ident_char(c: char) -> bool {
+    c.is_ascii_alphanumeric() || c == '_'
+}
+
+fn rename_ident(text: &str, from: &str, to: &str) -> String {
+    if from.is_empty() {
+        return text.to_string();
+    }
+    let mut out = String::new();
+    let mut i = 0;
+    while i < text.len() {
+        if text[i..].starts_with(from) {
+            let before_ok = text[..i].chars().next_back().map(|c| !is_ident_char(c)).unwrap_or(true);
+            let after_ok = text[i + from.len()..].chars().next().map(|c| !is_ident_char(c)).unwrap_or(true);
+            if before_ok && after_ok {
+                out.push_str(to);
+                i += from.len();
+                continue;
+            }
+        }
+        let ch = text[i..].chars().next().unwrap();
+        out.push(ch);
+        i += ch.len_utf8();
+    }
+    out
+}
+
+/// Text of variant `variant` of a file, mutations applied.
+pub fn text_of(f: &FileSpec, variant: u32) -> String {
+    let mut t = file_text(&f.kind, f.n, variant);
+    for m in &f.muts {
+        match m {
+            Mut::Shift(k) => {
+                let mut pre = String::new();
+                for i in 0..*k {
+                    pre.push_str(&format!("-- shifted {i}\n"));
+                }
+                t = pre + &t;
+            }
+            Mut::Append(line) => {
+                if !t.ends_with('\n') && !t.is_empty() {
+                    t.push('\n');
+                }
+                t.push_str(line);
+                t.push('\n');
+            }
+            Mut::Insert(at, line) => {
+                let mut lines: Vec<&str> = t.lines().collect();
+                let at = at % (lines.len() + 1);
+                lines.insert(at, line.as_str());
+                t = lines.join("\n") + "\n";
+            }
+            Mut::Delete(i) => {
+                let mut lines: Vec<&str> = t.lines().collect();
+                if !lines.is_empty() {
+                    lines.remove(i % lines.len());
+                    t = lines.join("\n") + "\n";
+                }
+            }
+            Mut::Rename(a, b) => t = rename_ident(&t, a, b),
+        }
+    }
+    t
+}
+
+/// Identifiers of a text that look like names introduced by the templates (contain a digit).
+fn idents_of(text: &str) -> Vec<String> {
+    let mut out: Vec<String> = Vec::new();
+    let mut cur = String::new();
+    for ch in text.chars().chain(std::iter::once(' ')) {
+        if is_ident_char(ch) {
+            cur.push(ch);
+        } else {
+            if cur.len() >= 2 && cur.chars().next().map(|c| c.is_ascii_alphabetic()).unwrap_or(false) && cur.chars().any(|c| c.is_ascii_digit()) && !out.contains(&cur) {
+                out.push(cur.clone());
+            }
+            cur.clear();
+        }
+    }
+    out
+}
+
+/// Add 1-3 seeded mutations to the files of a workspace.
+pub fn mutate_workspace(r: &mut Rng, files: &mut [FileSpec]) {
+    if files.is_empty() {
+        return;
+    }
+    for _ in 0..r.range(1, 3) {
+        let f = r.usize_below(files.len());
+        if files[f].kind == "broken" {
+            continue;
+        }
+        let g = r.usize_below(files.len());
+        let other = file_text(&files[g].kind, files[g].n, r.below(VARIANTS as u64) as u32);
+        let m = match r.below(6) {
+            0 => Mut::Shift(r.range(1, 3) as u32),
+            1 | 2 => {
+                // graft a declaration-like line of another file (a class / field / alias / enum
+                // annotation, an assignment, a function header closed on the same line)
+                let cands: Vec<&str> = other
+                    .lines()
+                    .filter(|l| {
+                        let t = l.trim_start();
+                        t.starts_with("---@class") || t.starts_with("---@field") || t.starts_with("---@alias") || t.starts_with("---@enum") || t.starts_with("---@type") || (t.contains(" = ") && !t.starts_with("local function") && !t.ends_with('{') && !t.starts_with("return"))
+                    })
+                    .collect();
+                if cands.is_empty() {
+                    continue;
+                }
+                let line = (*r.pick(&cands)).to_string();
+                if r.chance(1, 2) { Mut::Append(line) } else { Mut::Insert(r.below(40) as usize, line) }
+            }
+            3 => Mut::Delete(r.below(40) as usize),
+            _ => {
+                let mine = idents_of(&file_text(&files[f].kind, files[f].n, 0));
+                let theirs = idents_of(&other);
+                if mine.is_empty() || theirs.is_empty() {
+                    continue;
+                }
+                let a = r.pick(&mine).clone();
+                let b = r.pick(&theirs).clone();
+                if a == b {
+                    continue;
+                }
+                Mut::Rename(a, b)
+            }
+        };
+        files[f].muts.push(m);
+    }
 }
 
 pub const VARIANTS: u32 = 3;
@@ -284,7 +434,7 @@ pub fn file_text(kind: &str, n: u32, variant: u32) -> String {
 
 /// A group of files that interact; `n` is the group number.
 pub fn group(kind: &str, n: u32) -> Vec<FileSpec> {
-    let f = |rel: String, kind: &str| FileSpec { rel, kind: kind.to_string(), n };
+    let f = |rel: String, kind: &str| FileSpec { rel, kind: kind.to_string(), n, muts: Vec::new() };
     match kind {
         "class" => vec![f(format!("cls/a{n}.lua"), "class_a"), f(format!("cls/b{n}.lua"), "class_b")],
         "glob" => vec![f(format!("g/def{n}.lua"), "glob_def"), f(format!("g/use{n}.lua"), "glob_use"), f(format!("g/zconflict{n}.lua"), "glob_conflict")],
